@@ -1,21 +1,16 @@
-use amc::world::*;
-use amc::alphabet::*;
-use automerge::{AutoCommit, ReadDoc, TextEncoding, LoadOptions, ChangeHash};
+use automerge::{AutoCommit, ReadDoc, TextEncoding, ObjType, ROOT};
 use automerge::transaction::Transactable;
+use automerge::marks::{Mark, ExpandMark};
 fn main(){
-    let enc = TextEncoding::UnicodeCodePoint;
-    let b = base("B2", enc);
-    for with_rollback in [false, true] {
-        let mut d = AutoCommit::load_with_options(&b.save(), LoadOptions::new().text_encoding(enc)).unwrap().with_actor(actor(0x10));
-        let t = resolve(&d, Role::T).unwrap().0;
-        if with_rollback { d.splice_text(&t, 0, 0, "a").unwrap(); d.rollback(); }
-        let heads: Vec<ChangeHash> = b.get_changes(&[])[0..1].iter().map(|c| c.hash()).collect();
-        d.isolate(&heads);
-        d.splice_text(&t, 1, 0, "q").unwrap();
-        let h = d.commit();
-        let c = d.get_change_by_hash(&h.unwrap()).unwrap();
-        println!("rollback={} -> change actor {} seq {} deps {:?}", with_rollback, c.actor_id(), c.seq(), c.deps().len());
-        let actors: Vec<String> = d.get_changes(&[]).iter().map(|c| c.actor_id().to_string()).collect();
-        println!("   actors in history: {:?}", actors);
+    for enc in [TextEncoding::UnicodeCodePoint, TextEncoding::Utf8CodeUnit, TextEncoding::Utf16CodeUnit] {
+        let mut d = AutoCommit::new_with_encoding(enc);
+        let t = d.put_object(ROOT, "t", ObjType::Text).unwrap();
+        d.splice_text(&t, 0, 0, "😀b").unwrap();
+        let len = d.length(&t);
+        d.mark(&t, Mark::new("bold".into(), true, len-1, len), ExpandMark::None).unwrap();
+        println!("{:?} len {} marks {:?}", enc, len, d.marks(&t).unwrap().iter().map(|m| (m.start, m.end)).collect::<Vec<_>>());
+        for i in 0..len { println!("   get_marks({}) = {:?}  get({}) = {:?}", i, d.get_marks(&t, i, None).unwrap().iter().map(|(k,_)| k.to_string()).collect::<Vec<_>>(), i, d.get(&t, i).unwrap().map(|v| format!("{:?}", v.0))); }
+        let h = d.get_heads();
+        for i in 0..len { println!("   get_marks_at({}) = {:?}", i, d.get_marks(&t, i, Some(&h)).unwrap().iter().map(|(k,_)| k.to_string()).collect::<Vec<_>>()); }
     }
 }
